@@ -48,6 +48,23 @@ Fixpoint picks {A} (l : list A) : list (A * list A) :=
   | x :: l' => (x, l') :: map (fun yl => (fst yl, x :: snd yl)) (picks l')
   end.
 
+(** [existsb] with a short-circuit that survives call-by-value evaluation
+    ([orb]/[andb] are ordinary functions for [vm_compute]: both arguments are
+    evaluated). *)
+Fixpoint anyb {A} (f : A -> bool) (l : list A) : bool :=
+  match l with
+  | [] => false
+  | x :: l' => if f x then true else anyb f l'
+  end.
+
+Lemma anyb_exists {A} (f : A -> bool) l : anyb f l = true -> exists x, In x l /\ f x = true.
+Proof.
+  induction l as [|x l IH]; cbn; [discriminate|].
+  destruct (f x) eqn:E; intros H.
+  - exists x; auto.
+  - destruct (IH H) as [y [Hy Fy]]. exists y; auto.
+Qed.
+
 Definition is_nil {A} (l : list A) : bool := match l with [] => true | _ => false end.
 
 Definition minimal (a : opr) (rest : list opr) : bool :=
@@ -61,15 +78,16 @@ Fixpoint lin_search (fuel : nat) (s : St) (pend : list opr) (fin : St -> bool) :
       | O => false
       | S f =>
           let try := fun ar =>
-                     minimal (fst ar) (snd ar) &&
-                     existsb (fun s' => lin_search f s' (snd ar) fin)
-                             (sstep s (o_op (fst ar)) (o_ret (fst ar))) in
+                     if minimal (fst ar) (snd ar)
+                     then anyb (fun s' => lin_search f s' (snd ar) fin)
+                               (sstep s (o_op (fst ar)) (o_ret (fst ar)))
+                     else false in
           match find (fun ar => minimal (fst ar) (snd ar)
                                 && pure (o_op (fst ar)) (o_ret (fst ar))
                                 && negb (is_nil (sstep s (o_op (fst ar)) (o_ret (fst ar)))))
                      (picks pend) with
           | Some ar => try ar
-          | None => existsb try (picks pend)
+          | None => anyb try (picks pend)
           end
       end
   end.
@@ -113,18 +131,19 @@ Proof.
   - destruct pend as [|p0 pend0].
     + cbn in H. exists [], s. repeat split; auto; constructor.
     + remember (p0 :: pend0) as pend. cbn in H. rewrite Heqpend in H. rewrite <- Heqpend in H.
-      assert (H' : exists ar, In ar (picks pend) /\ minimal (fst ar) (snd ar) &&
-                 existsb (fun s' => lin_search f s' (snd ar) fin)
-                         (sstep s (o_op (fst ar)) (o_ret (fst ar))) = true).
+      assert (H' : exists ar, In ar (picks pend) /\
+                 (if minimal (fst ar) (snd ar)
+                  then anyb (fun s' => lin_search f s' (snd ar) fin)
+                         (sstep s (o_op (fst ar)) (o_ret (fst ar))) else false) = true).
       { subst pend.
         match type of H with
         | (match ?F with _ => _ end) = true => destruct F as [ar|] eqn:EF
         end.
         - apply find_some in EF. exists ar. split; [apply EF|exact H].
-        - apply existsb_exists in H. exact H. }
+        - apply anyb_exists in H. exact H. }
       clear H. destruct H' as [[a rest] [Hin Hc]]. cbn in Hc.
-      apply andb_true_iff in Hc. destruct Hc as [Hmin Hex].
-      apply existsb_exists in Hex. destruct Hex as [s' [Hs' Hrec]].
+      destruct (minimal a rest) eqn:Hmin; [|discriminate]. rename Hc into Hex.
+      apply anyb_exists in Hex. destruct Hex as [s' [Hs' Hrec]].
       destruct (IH _ _ _ Hrec) as [l [sf [P [Rs [Rn F]]]]].
       exists (a :: l), sf. repeat split.
       * transitivity (a :: rest); [constructor; exact P|]. apply picks_perm; exact Hin.
